@@ -59,6 +59,10 @@ type serverConn struct {
 	// last valid ID used as a reference for new IDs
 	lastID uint32
 
+	// goAwayMu orders a GOAWAY written from outside the stream loop against
+	// the stream loop opening a new stream.
+	goAwayMu sync.Mutex
+
 	// client's window
 	// should be int64 because the user can try to overflow it
 	clientWindow int64
@@ -837,6 +841,32 @@ loop:
 					continue
 				}
 
+				if fr.Type() == FrameHeaders {
+					// A GOAWAY can be written by the read loop or the idle timer at any
+					// moment. Whether this stream still counts is settled under the
+					// lock writeGoAway holds from reading lastID until the connection
+					// is marked closed: either that GOAWAY names the stream, or the
+					// stream is refused. Reading the state at the top of the iteration
+					// and advancing lastID here left a gap in which a GOAWAY told the
+					// peer it may replay a request that was then handed to the handler.
+					sc.goAwayMu.Lock()
+					closing := isClosing()
+					if !closing {
+						atomic.StoreUint32(&sc.lastID, fr.Stream())
+					}
+					sc.goAwayMu.Unlock()
+
+					if closing {
+						if fr.Stream() > lastRefused {
+							lastRefused = fr.Stream()
+						}
+
+						sc.writeReset(fr.Stream(), RefusedStreamError)
+
+						continue
+					}
+				}
+
 				strm = NewStream(fr.Stream(), curInitialWindow)
 				strms = append(strms, strm)
 
@@ -848,8 +878,6 @@ loop:
 				// HEADERS frame and streams that are reserved using PUSH_PROMISE.
 				if fr.Type() == FrameHeaders {
 					openStreams++
-					// writeGoAway reads it from the read loop and the idle timer
-					atomic.StoreUint32(&sc.lastID, fr.Stream())
 				}
 
 				sc.createStream(sc.c, fr.Type(), strm)
@@ -1053,7 +1081,12 @@ func (sc *serverConn) writeGoAway(strm uint32, code ErrorCode, message string) {
 
 	// The last-stream-id tells the peer which of its streams may have been acted
 	// on, and so which it must not replay elsewhere: never less than the newest
-	// stream that was opened, whichever stream the error is about.
+	// stream that was opened, whichever stream the error is about. The lock
+	// keeps the stream loop from opening another one until the connection is
+	// marked closed below.
+	sc.goAwayMu.Lock()
+	defer sc.goAwayMu.Unlock()
+
 	last := atomic.LoadUint32(&sc.lastID)
 	verifYield("goaway-loaded-last")
 	if strm > last {
